@@ -5,7 +5,8 @@
 (* One trace per ndjson line: [init |-> <<pub, n>> (observed state before the    *)
 (*   first step), events |-> << <<thread, label, pub, n>>, ... >>]              *)
 (*   thread 1..2; label = the model label the executed source line stands for    *)
-(*   ("test", "build", "publish", "look", as-it-was code: "pubE", "fill";         *)
+(*   ("test", "build", "publish", "look", as-it-was code: "pubE", "fill",        *)
+(*   "fillhead";                                                                 *)
 (*   "other" = a line that touches no shared state: a stuttering step);          *)
 (*   pub / n = the observed shared state after the line (global bound? how many  *)
 (*   rows in the published dict).  pc, mine, i are not logged: TLC infers them.  *)
@@ -21,7 +22,10 @@ TraceInit == /\ tr \in DOMAIN Tr /\ pub = Tr[tr].init[1] /\ rows = 1..Tr[tr].ini
              /\ l = 1
 Step(self, label) ==
     CASE label = "test" -> test(self) [] label = "build" -> build(self) [] label = "publish" -> publish(self)
-      [] label = "look" -> look(self) [] label = "pubE" -> pubE(self) [] label = "fill" -> fill(self)
+      [] label = "look" -> look(self) [] label = "pubE" -> pubE(self)
+      \* as-it-was code: the insertion line is the body of the model's fill loop, the loop head its exit test
+      [] label = "fill" -> IF pc[self] = "fill" /\ i[self] <= NRows THEN fill(self) ELSE UNCHANGED vars
+      [] label = "fillhead" -> IF pc[self] = "fill" /\ i[self] > NRows THEN fill(self) ELSE UNCHANGED vars
       [] OTHER -> UNCHANGED vars
 TraceNext == /\ l <= Len(Ev(tr)) /\ l' = l + 1 /\ UNCHANGED tr
              /\ LET e == Ev(tr)[l] IN
@@ -30,7 +34,10 @@ TraceNext == /\ l <= Len(Ev(tr)) /\ l' = l + 1 /\ UNCHANGED tr
 TraceSpec == TraceInit /\ [][TraceNext]_<<vars, tr, l>>
 \* acceptance is reported per trace (thousands of traces per JVM)
 Accepted == l = Len(Ev(tr)) + 1 => PrintT("@@" \o ToJson([accepted |-> tr]))
-\* the properties of the model, evaluated on the observed behaviour
-ObservedAtomic == AtomicTable
-ObservedLinearizable == Linearizable
+\* the properties of the model, evaluated on the observed behaviour; reported per trace, never stopping TLC:
+\*   hazard          - a state in which other threads could see a half-filled table (AtomicTable fails)
+\*   nonlinearizable - a modelled caller looked into such a table and missed its row (Linearizable fails)
+\* The harness compares these verdicts with what the real calls returned.
+ObservedAtomic == AtomicTable \/ PrintT("@@" \o ToJson([hazard |-> tr]))
+ObservedLinearizable == Linearizable \/ PrintT("@@" \o ToJson([nonlinearizable |-> tr]))
 =============================================================================
